@@ -54,10 +54,19 @@ type c10ParentInfo struct {
 	hasOther bool
 }
 
+// c10LeanParent: fixed one-entry header maps (callers for which the parent's header content is not the subject)
+var c10LeanParent bool
+
 func mkC10Parent(name string) c10ParentInfo {
 	pi := c10ParentInfo{kind: vChoose(name+".kind", 4)}
-	pi.prot = ProtectedHeader(mkBenignMap(name+".p", 1+vTier(), vTier() == 1))
-	un := UnprotectedHeader(mkBenignMap(name+".u", 1+vTier(), false))
+	var un UnprotectedHeader
+	if c10LeanParent {
+		pi.prot = ProtectedHeader{int64(1000): vBlob(name + ".pv")}
+		un = UnprotectedHeader{int64(1001): vBlob(name + ".uv")}
+	} else {
+		pi.prot = ProtectedHeader(mkBenignMap(name+".p", 1+vTier(), vTier() == 1))
+		un = UnprotectedHeader(mkBenignMap(name+".u", 1+vTier(), false))
+	}
 	h := Headers{Protected: pi.prot, Unprotected: un}
 	ptr := vChoose(name+".ptr", 2) == 0
 	pi.sig = vBlobN(name+".sig", 1, 1<<20)
